@@ -28,9 +28,6 @@ func c10(c *q.Ctx) {
 		c.ArgIs(sel, "sandbox::newTreeRangeIterator", 2, "phi{sandbox.makeRawKey(p1,p3)|sandbox.prefixEnd(sandbox.makeRawKey(p1,nil))}", 1, "and ends at the end key, or past the whole bucket when none is given")
 		c.Guard(sel, q.Cond{Canon: "(0 < dyn:p0.tree.Comparator(p2,p3))", Sense: true}, q.ToSuccess(), q.Opt{})
 	}
-	if pe := c.P.Funcs["kernel/contract/sandbox::prefixEnd"]; pe != nil && len(pe.Blocks) > 0 {
-		c.CondCount(pe, "(*[#down] < 255)", 1, "the limit is the prefix with its last byte below 0xff incremented")
-	}
 	const sb = "kernel/contract/sandbox::"
 	get := c.Fn(sb + "(*XMCache).Get")
 	if get != nil {
